@@ -8,8 +8,8 @@ import subprocess
 
 from .common import *  # noqa: F401,F403
 
-DIRS = ["docs", "sub", "build", "node_modules", ".venv", "src", "a b", "deep"]
-FILES = ["a.md", "b.md", "x.md", "ign.md", "z.tmp.md", "notes.txt", "c.MD", "README.md", "a.mdx"]
+DIRS = ["docs", "sub", "build", "node_modules", ".venv", "src", "a b", "deep", "dist", "vendor", "pkg.egg-info", ".hidden"]
+FILES = ["a.md", "b.md", "x.md", "ign.md", "z.tmp.md", "notes.txt", "c.MD", "README.md", "a.mdx", ".hidden.md", "md", "x.md.bak", "UP.Md"]
 GITIGNORE_LINES = ["*.tmp.md", "ign.md", "/a.md", "docs/x.md", "sub/", "build/", "!z.tmp.md", "!a.md", "# comment", "", "*.txt",
                    "**/deep/b.md", "x?.md", "/docs/", "b.md", "src/*.md", "!src/a.md", "deep/"]
 
